@@ -177,6 +177,9 @@ impl Prop for C16 {
                     let op = crate::props::c15::gen_hw(g.rng, reg, shadow.reg_ref(reg).cond);
                     let target = op.target(shadow.reg_ref(reg).cond);
                     shadow.reg(reg).set_condition(target);
+                    if op.op == HwKind::Enable {
+                        shadow.reg(reg).enable = op.value;
+                    }
                     t.steps.push(Step::Hw(op));
                     continue;
                 }
